@@ -28,7 +28,11 @@ M = {
   ("close-on-bad-method", "internal/server/dispatcher.go",
    "\t\t}).Error(ErrBadProxyMethod)\n\t\tgoWeb()\n", "\t\t}).Error(ErrBadProxyMethod)\n\t\tconn.Close()\n"),
   ("oversize-off-by-one", "internal/server/dispatcher.go", "if dataLength+recordLayerLength > len(buf) {", "if dataLength+recordLayerLength >= len(buf) {"),
-  ("no-recover-parseExtensions", "internal/server/TLSAux.go",
+  ("no-recover-parseKeyShare", "internal/server/TLSAux.go",
+   "\tdefer func() {\n\t\tif r := recover(); r != nil {\n\t\t\terr = errors.New(\"malformed key_share\")\n\t\t}\n\t}()\n", ""),
+  ("no-recover-parseClientHello", "internal/server/TLSAux.go",
+   "\tdefer func() {\n\t\tif r := recover(); r != nil {\n\t\t\terr = errors.New(\"Malformed ClientHello\")\n\t\t}\n\t}()\n", ""),
+  ("no-recover-parseExtensions (masked by parseClientHello's guard; must pass)", "internal/server/TLSAux.go",
    "\tdefer func() {\n\t\tif r := recover(); r != nil {\n\t\t\terr = errors.New(\"Malformed Extensions\")\n\t\t}\n\t}()\n", ""),
   ("unrecognised-closes", "internal/server/dispatcher.go", "return bufOffset, transport, true, ErrUnrecognisedProtocol", "return bufOffset, transport, false, ErrUnrecognisedProtocol"),
   ("ws-byte-0x48", "internal/server/dispatcher.go", "case 0x47:", "case 0x48:"),
